@@ -4,7 +4,7 @@
 # writes /verif/seeded/<name>/{patch.diff,demo.diff,NOTES.md,confirm.log}; prints CONFIRMED or REJECTED
 set -u
 NAME="$1"; WT="$2"
-export CARGO_NET_OFFLINE=true CARGO_TARGET_DIR=/tmp/seed-target RUST_BACKTRACE=0
+export CARGO_NET_OFFLINE=true CARGO_TARGET_DIR=${SEED_TARGET:-/tmp/seed-target} RUST_BACKTRACE=0
 OUT=/verif/seeded/$NAME; mkdir -p "$OUT"
 LOG="$OUT/confirm.log"; : > "$LOG"
 cd "$WT" || exit 2
